@@ -165,7 +165,11 @@ func (rr *RunResult) noteAlternative(label string, v *Vector) {
 			}
 		}
 	}
-	if len(rr.AltViolations[label]) >= 64 {
+	limit := 12
+	if strings.HasPrefix(label, "no-unsynchronised-shared-access") {
+		limit = 64
+	}
+	if len(rr.AltViolations[label]) >= limit {
 		return
 	}
 	fresh := false
@@ -488,7 +492,7 @@ func (m *Machine) merge(rr *RunResult, res *PathResult) {
 			ls.Violated++
 			if _, ok := rr.Violations[a.Label]; !ok {
 				rr.Violations[a.Label] = a.Vec
-			} else if a.Vec != nil && strings.HasPrefix(a.Label, "no-unsynchronised-shared-access") {
+			} else if a.Vec != nil {
 				rr.noteAlternative(a.Label, a.Vec)
 			}
 		case "known":
